@@ -38,6 +38,22 @@ def main():
 
     cases = []
     w = json.loads(sys.argv[1])
+    if w.get("part") == "pad":
+        # a loose tolerance: genuine Hessenberg columns fall under the padding threshold 10 tol max|H|
+        r1 = np.random.default_rng(1)
+        S = np.eye(8) + 0.1 * r1.standard_normal((8, 8))
+        M = S @ np.diag([100, 50, 20, 1, 0.5, 0.2, 0.1, 0.05]) @ np.linalg.inv(S)
+        bb = r1.standard_normal(8)
+        prev = None
+        for m in (2, 4, 8):
+            X, _ = G.gmres(Dense(M), bb, max_iters=m, tol=0.05)
+            res = float(np.linalg.norm(M @ np.asarray(X) - bb))
+            if res > np.linalg.norm(bb) * (1 + 1e-9) or (prev is not None and res > prev * (1 + 1e-6)):
+                found(clause="residual never exceeds that of the initial guess and is non-increasing in m", input=f"gmres(8x8 with eigenvalues 100 .. 0.05, b, max_iters={m}, tol=0.05), seed 1",
+                      observed=f"residual {res:.4e}", expected=f"<= ||b|| = {np.linalg.norm(bb):.4e}" + (f" and <= {prev:.4e} (previous m)" if prev is not None else ""))
+            prev = res
+        print(json.dumps(dict(replayed=True, failing_input_found=False, cases=3)))
+        return
     sizes = (1, 2, 5, 12, 24) + ((40,) if w.get("tier") == "thorough" else ())
     for n in sizes:
         for cplx in (False, True):
